@@ -153,7 +153,7 @@ def _child(job, conn):
         conn.close()
 
 
-JOB_TIMEOUT = {'quick': {'unit': 600, 'lemma': 240, 'canary': 180, 'bounded': 600, 'lean': 900, 'leangen': 1000},
+JOB_TIMEOUT = {'quick': {'unit': 900, 'lemma': 300, 'canary': 240, 'bounded': 600, 'lean': 900, 'leangen': 1000},
                'thorough': {'unit': 1500, 'lemma': 600, 'canary': 900, 'bounded': 1800, 'lean': 1500, 'leangen': 1500}}
 
 
@@ -295,7 +295,8 @@ def check(args):
         except OSError:
             pass
     jobs = []
-    units = [k for k, c_ in reg.contracts.items() if pid in c_.props and c_.verify]
+    units = [k for k, c_ in reg.contracts.items() if pid in c_.props and c_.verify
+             and (tier == 'thorough' or getattr(c_.cls, 'tier', 'quick') != 'thorough')]    # slow units can be left to the thorough tier
     assumed = [k for k, c_ in reg.contracts.items() if pid in c_.props and not c_.verify]
     lemmas = [k for k, l_ in reg.lemmas.items() if pid in l_.props]
     if args.only:
@@ -313,6 +314,8 @@ def check(args):
     for u in units:
         cs = reg.contracts[u].canaries
         n = len(cs) if tier == 'thorough' else min(1, len(cs))
+        if tier == 'quick' and getattr(reg.contracts[u].cls, 'slow_canaries', False):
+            n = 0          # re-verifying a mutant of this unit exceeds the quick tier's per-job limit: thorough tier only
         for i in range(n):
             jobs.append(('canary', (u, (i + seed) % len(cs) if tier == 'quick' else i), opts))
     for name, meta in bounded.META.items():
